@@ -104,6 +104,8 @@ def tie(tier, seed):
     thm_yes = thm_no = thm_other = closing = 0
     wf_yes = wf_no_block_preds = wf_no_other = 0
     wf_unmet = []
+    cons_yes = cons_no = 0
+    cons_unmet = []
     thm_unmet = []
     mism = []
     shapes = {}
@@ -145,6 +147,15 @@ def tie(tier, seed):
                         wf_unmet.append({"graph": item[1]})
                 else:
                     wf_no_other += 1
+            if len(x) >= 6:
+                # sixth column: the conditions of the universal conservation theorem for edits of one level
+                # (LevelCons.level_edit_conserves_b) hold and the hierarchy it speaks about is the one produced
+                if x[5] == 1:
+                    cons_yes += 1
+                elif x[4] == 1:
+                    cons_no += 1
+                    if len(cons_unmet) < 4:
+                        cons_unmet.append({"graph": item[1]})
             if x[:3] == [1, 1, 1]:
                 agree += 1
             elif len(mism) < 4:
@@ -157,4 +168,6 @@ def tie(tier, seed):
             "calls_meeting_consistency_theorem_conditions": wf_yes,
             "block_predecessor_calls_not_meeting_them": wf_no_block_preds, "consistency_unmet_examples": wf_unmet,
             "other_calls_not_meeting_them": wf_no_other,
+            "calls_meeting_conservation_theorem_conditions": cons_yes,
+            "level_edits_not_meeting_conservation_theorem_conditions": cons_no, "conservation_unmet_examples": cons_unmet,
             "calls_by_shape": shapes, "skipped": skipped, "harness_errors": [repr(e)[:200] for e in errors][:3]}
